@@ -54,9 +54,20 @@ type Gen struct {
 	openSt  map[int]string
 	// an upload was placed inside the first data sync of a shutdown
 	windowPut bool
+	// failures injected into the final data sync so far
+	finalFails int
 }
 
 func NewGen(rnd *hx.Rand, o Opts) *Gen { return &Gen{rnd: rnd, o: o, openSt: map[int]string{}} }
+
+// finalFault decides whether the data sync in progress - the final one of a shutdown - fails now.
+func (g *Gen) finalFault(r *Runner) bool {
+	if !g.o.Faults || !r.g1final || r.g1pc != "syncing" || g.finalFails >= 3 || !g.rnd.Chance(1, 2) {
+		return false
+	}
+	g.finalFails++
+	return true
+}
 
 func (g *Gen) newPut(r *Runner) (op, obj, size int) {
 	g.nextOp++
@@ -78,6 +89,10 @@ func (g *Gen) Next(r *Runner) []string {
 	for _, e := range r.Enabled() {
 		if e == "shutdown" {
 			continue
+		}
+		if e == "sync.fail" && g.finalFault(r) {
+			// the final data sync of a shutdown fails (once or several times in a row)
+			return []string{"sync.fail"}
 		}
 		if (e == "sync.fail" || e == "sw.fail") && !(g.o.Faults && rnd.Chance(1, 6)) {
 			continue
@@ -226,7 +241,7 @@ func RunCase(run *hx.Run, model *hx.Model, name string, rnd *hx.Rand, o Opts) *R
 			g.windowPut = true
 			op, obj, size := g.newPut(r)
 			return []string{fmt.Sprintf("put.begin %d %d %d", op, obj, size), fmt.Sprintf("put.copy %d", op), fmt.Sprintf("put.end %d", op)}
-		})
+		}, func() bool { return g.finalFault(r) })
 	}
 	r.St.Kill()
 	return r
@@ -234,7 +249,11 @@ func RunCase(run *hx.Run, model *hx.Model, name string, rnd *hx.Rand, o Opts) *R
 
 // FinishShutdown drives the syncer until ProcessBlockPut has returned false, then restarts from the
 // medium as the operating system holds it: everything resolvable at the end must be readable.
-func (r *Runner) FinishShutdown(after func(), window func() []string) {
+func (r *Runner) FinishShutdown(after func(), window func() []string, fault func() bool) {
+	if !r.cancelled && !r.Failed && !r.drained { // a crash and restart came after the request
+		r.Step("shutdown")
+		after()
+	}
 	for i := 0; i < 200 && r.g1pc != "finished" && !r.Failed && !r.drained; i++ {
 		var next string
 		for _, e := range r.Enabled() {
@@ -255,6 +274,9 @@ func (r *Runner) FinishShutdown(after func(), window func() []string) {
 				after()
 			}
 		}
+		if next == "sync.end" && fault != nil && fault() {
+			next = "sync.fail"
+		}
 		r.Step(next)
 		after()
 	}
@@ -267,9 +289,7 @@ func (r *Runner) FinishShutdown(after func(), window func() []string) {
 	}
 	// uploads after the shutdown completed are refused
 	r.Step("put.begin 99990 255 1") // object ids stay below 256: contents of one byte are distinct
-	sn := r.St.Snapshot()
-	r.Run.Count("shutdown-fork")
-	r.Fork(sn, AllKept(sn, false), true)
+	r.afterShutdown()
 }
 
 // Replay executes a recorded script.
